@@ -2,9 +2,11 @@ package main
 
 import (
 	"bytes"
+	"context"
 	"encoding/json"
 	"fmt"
 	"io"
+	"net"
 	"net/http"
 	"net/http/httptest"
 	"regexp"
@@ -12,6 +14,7 @@ import (
 	"strconv"
 	"strings"
 	"sync"
+	"time"
 
 	"github.com/maruel/panicparse/v2/stack"
 	"github.com/maruel/panicparse/v2/stack/webstack"
@@ -165,31 +168,19 @@ func runC20(r *core.Run) {
 	defer webstack.VerifSnapshotHook.Store(nil)
 	var panics []string
 	var pmu sync.Mutex
-	srv := httptest.NewServer(http.HandlerFunc(func(w http.ResponseWriter, req *http.Request) {
+	// The handler writes straight to the network connection (small socket buffers, some slow clients: its writes
+	// really block and overlap with other requests). What the request captured is put into response headers by
+	// the hook itself, which runs in the handler's goroutine before anything is written.
+	var writers sync.Map // goroutine id -> http.ResponseWriter
+	hook2 := func(raw []byte, s *stack.Snapshot, err error) {
+		hook(raw, s, err)
 		gid := curGID()
-		defer func() {
-			if p := recover(); p != nil {
-				pmu.Lock()
-				panics = append(panics, fmt.Sprint(p))
-				pmu.Unlock()
-				w.WriteHeader(599)
-			}
-			capMu.Lock()
-			c := captures[gid]
-			delete(captures, gid)
-			capMu.Unlock()
-			_ = c
-		}()
-		// report what this request captured in a trailer-like header set before the body is written
-		rec := httptest.NewRecorder()
-		webstack.SnapshotHandler(rec, req)
 		capMu.Lock()
 		c := captures[gid]
+		delete(captures, gid)
 		capMu.Unlock()
-		for k, v := range rec.Header() {
-			w.Header()[k] = v
-		}
-		if c != nil {
+		if wv, ok := writers.Load(gid); ok && c != nil {
+			w := wv.(http.ResponseWriter)
 			w.Header().Set("X-Verif-Headers", strconv.Itoa(c.headers))
 			w.Header().Set("X-Verif-RawLen", strconv.Itoa(c.rawLen))
 			w.Header().Set("X-Verif-Parsed", strconv.Itoa(c.parsed))
@@ -197,9 +188,24 @@ func runC20(r *core.Run) {
 				w.Header().Set("X-Verif-Err", c.err.Error())
 			}
 		}
-		w.WriteHeader(rec.Code)
-		_, _ = w.Write(rec.Body.Bytes())
+	}
+	webstack.VerifSnapshotHook.Store(&hook2)
+	srv := httptest.NewUnstartedServer(http.HandlerFunc(func(w http.ResponseWriter, req *http.Request) {
+		gid := curGID()
+		writers.Store(gid, w)
+		defer func() {
+			writers.Delete(gid)
+			if p := recover(); p != nil {
+				pmu.Lock()
+				panics = append(panics, fmt.Sprint(p))
+				pmu.Unlock()
+				w.WriteHeader(599)
+			}
+		}()
+		webstack.SnapshotHandler(w, req)
 	}))
+	srv.Listener = &smallBufListener{srv.Listener}
+	srv.Start()
 	defer srv.Close()
 	world := startLive(core.NewRand(r.Seed, 2020))
 	stopChurn := make(chan struct{})
@@ -239,7 +245,14 @@ func runC20(r *core.Run) {
 		go func(cidx int) {
 			defer wg.Done()
 			rr := core.NewRand(r.Seed, 20, uint64(cidx))
-			client := &http.Client{}
+			client := &http.Client{Transport: &http.Transport{DialContext: func(ctx context.Context, network, addr string) (net.Conn, error) {
+				c, err := (&net.Dialer{}).DialContext(ctx, network, addr)
+				if tc, ok := c.(*net.TCPConn); ok {
+					_ = tc.SetReadBuffer(8 << 10)
+				}
+				return c, err
+			}}}
+			slow := cidx%4 == 0
 			for k := 0; k < perClient; k++ {
 				spec := genReq(rr)
 				req, _ := http.NewRequest(spec.Method, srv.URL+"/debug/panicparse?"+spec.Query, nil)
@@ -249,7 +262,23 @@ func runC20(r *core.Run) {
 					r.Violation("handler-no-response", fmt.Sprintf("%s ?%s: %v", spec.Method, spec.Query, err), "req", spec)
 					continue
 				}
-				body, _ := io.ReadAll(resp.Body)
+				var body []byte
+				if slow {
+					// a slow reader: the server's writes fill the small socket buffers and block
+					chunk := make([]byte, 2048)
+					for {
+						n, err := resp.Body.Read(chunk)
+						body = append(body, chunk[:n]...)
+						if err != nil {
+							break
+						}
+						if len(body)%(16<<10) < 2048 {
+							time.Sleep(300 * time.Microsecond)
+						}
+					}
+				} else {
+					body, _ = io.ReadAll(resp.Body)
+				}
 				resp.Body.Close()
 				r.Mark("statuses", fmt.Sprintf("%s valid=%v -> %d", spec.Method, spec.Valid, resp.StatusCode))
 				r.Distinct(core.HashStr(spec.Method + spec.Query + strconv.Itoa(cidx*100000+k)))
@@ -275,6 +304,10 @@ func runC20(r *core.Run) {
 				}
 				if parsed != headers {
 					r.Violation("capture-count", fmt.Sprintf("the dump this request captured has %d goroutine headers, %d parsed", headers, parsed), "req", spec)
+					continue
+				}
+				if !bytes.HasPrefix(body, []byte("<!DOCTYPE html>")) || bytes.Count(body, []byte(`<div class="bottom-padding"></div>`)) != 1 || !bytes.HasSuffix(bytes.TrimSpace(body), []byte(`<div class="bottom-padding"></div>`)) {
+					r.Violation("page-not-one-document", fmt.Sprintf("GET ?%s: the body (%d bytes) is not one complete page (doctype first, the closing bottom-padding div exactly once at the end)", spec.Query, len(body)), "req", spec)
 					continue
 				}
 				sum, nb := bucketSizes(body)
@@ -381,4 +414,15 @@ func replayC20(r *core.Run, kind string, raw json.RawMessage) {
 		return
 	}
 	fmt.Println("handler witnesses depend on the live process and do not replay deterministically; the request is in the file")
+}
+
+// smallBufListener gives accepted connections a small send buffer so that the handler's writes block.
+type smallBufListener struct{ net.Listener }
+
+func (l *smallBufListener) Accept() (net.Conn, error) {
+	c, err := l.Listener.Accept()
+	if tc, ok := c.(*net.TCPConn); ok {
+		_ = tc.SetWriteBuffer(16 << 10)
+	}
+	return c, err
 }
